@@ -274,7 +274,7 @@ def gen_tensor_recipe(rng, cfg, slot) -> tuple[dict, MTensor]:
                 # more narrow dtypes (image data, fixed point, single precision). The cap is what the dtype holds
                 # exactly; mixed narrow dtypes promote to something at least as wide as the widest of them, so
                 # judging by the largest cap is conservative
-                kw["dt"] = rng.choice(["u8", "i16", "f32"])
+                kw["dt"] = rng.choice(["i16", "f32"])
                 if kw["dt"] == "u8":
                     arr = np.abs(arr) * rng.choice([1, 20, 60])
                 elif kw["dt"] == "i16":
@@ -478,6 +478,10 @@ class ProgGen:
                 n = rng.choice([1, 2, 3, 4, 5])
                 cov = rng.random() < 0.5
                 st = {"i": i, "c": client, "op": "eps", "n": n, "cov": cov, "covas": rng.choice(["bool", "bool", "int", "npbool"])}
+                if rng.random() < 0.25:
+                    # followed by an augmented assignment through a second name: today `x *= c` rebinds x; whatever a
+                    # later version does, the epsilon object and the cached array behind it must stay the definition
+                    st["aug"] = [rng.choice(["imul", "imul", "idiv", "iadd", "isub", "ipow"]), rng.choice([2, -1, 3])]
                 if n <= 4 and rng.random() < 0.5:
                     t = self.new_t()
                     st["to"] = t
@@ -487,6 +491,8 @@ class ProgGen:
             n = rng.choice([1, 2, 3, 4])
             p = rng.choice([q for q in (1, 2, 3) if n ** (2 * q) <= 4096])
             st = {"i": i, "c": client, "op": "delta", "n": n, "p": p}
+            if rng.random() < 0.25:
+                st["aug"] = [rng.choice(["imul", "imul", "idiv", "iadd", "isub", "ipow"]), rng.choice([2, -1, 3])]
             if n ** (2 * p) <= 256 and rng.random() < 0.5:
                 t = self.new_t()
                 st["to"] = t
@@ -892,6 +898,24 @@ def compare_value(step, got, exp_payload, flags=()) -> dict | None:
     return None
 
 
+def _with_aug(e, aug):
+    """`x = e; x <op>= c` through a second name; returns e itself (which the step goes on to judge)."""
+    if aug:
+        how, c = aug
+        x = e
+        if how == "imul":
+            x *= c
+        elif how == "idiv":
+            x /= c
+        elif how == "iadd":
+            x += c
+        elif how == "isub":
+            x -= c
+        else:
+            x **= 1
+    return e
+
+
 class Exec:
     """Executes a C05 program against geometer with the model's expectations in lock-step."""
 
@@ -972,9 +996,9 @@ class Exec:
             flag = st["cov"]
             how = st.get("covas", "bool")
             flag = {"bool": flag, "int": int(flag), "npbool": np.bool_(flag)}[how]
-            fn = lambda: LeviCivitaTensor(st["n"], flag)  # noqa: E731
+            fn = lambda: _with_aug(LeviCivitaTensor(st["n"], flag), st.get("aug"))  # noqa: E731
         elif op == "delta":
-            fn = lambda: KroneckerDelta(st["n"], st["p"])  # noqa: E731
+            fn = lambda: _with_aug(KroneckerDelta(st["n"], st["p"]), st.get("aug"))  # noqa: E731
         elif op == "tcopy":
             fn = lambda: T[st["t"]].copy()  # noqa: E731
         elif op == "new":
